@@ -17,8 +17,8 @@ RULE = ("cases = generated designs K1-K7 and Repeat (K9) restricted to within-tr
         "with weights, MinimumTrials and every constraint type; non-trivial = SMGen returned >= 1 sequence that R "
         "judged fully, or refused; distinct = spec hashes")
 ASSUMPTIONS = ["reference model R (vlib/ref.py)", "a refusal is an Exception whose text contains 'not supported' or 'Unsupported'"]
-MINIMUMS = {"quick": {"returned_and_judged": 35, "refused": 40, "sequences_judged": 100},
-            "thorough": {"returned_and_judged": 900, "refused": 600, "sequences_judged": 2200}}
+MINIMUMS = {"quick": {"returned_and_judged": 25, "refused": 40, "sequences_judged": 80, "primer_sequences_judged": 100},
+            "thorough": {"returned_and_judged": 600, "refused": 600, "sequences_judged": 1800, "primer_sequences_judged": 2000}}
 CASE_TIMEOUT = 60
 MAX_INCONCLUSIVE_FRACTION = 0.5
 CLASSES = ["K1", "K2", "K3", "K4", "K5", "K6", "K6", "K7", "K9", "K3", "K2", "K12"]
@@ -38,6 +38,20 @@ def cases(tier, seed):
     return out
 
 
+# A design SMGen accepts whose crossing holds a derived factor with a weighted level: every case first samples
+# this one, so that each case's own calls start from a process in which SMGen has already run on a *different*
+# design (reset_state between designs is part of what is observed).
+PRIMER = {"factors": {"P0": {"kind": "basic", "levels": [["p00", 1], ["p01", 1]]},
+                      "P1": {"kind": "basic", "levels": [["p10", 1], ["p11", 1]]},
+                      "PW": {"kind": "derived", "win": ["within", 1, 1, None], "deps": ["P0", "P1"],
+                             "levels": [["same", 2], ["diff", 1]],
+                             "table": {'["p00", "p10"]': 0, '["p01", "p11"]': 0, '["p00", "p11"]': 1, '["p01", "p10"]': 1},
+                             "else": None}},
+          "order": ["P0", "P1", "PW"],
+          "block": {"op": "cross", "design": ["P0", "P1", "PW"], "crossings": [["P0", "PW"]], "cons": [], "rcc": True,
+                    "mode": "weight", "align": "equal", "ctor": "CrossBlock"}}
+
+
 def child(spec, short_timer):
     import sweetpea as sp
     from sweetpea._internal.sampling_strategy import scattered_map_core as smc
@@ -52,6 +66,9 @@ def child(spec, short_timer):
             return real(0.01, wrapped, *a, **k)
         smc.threading.Timer = quick_timer
     outs = []
+    pb, _, pe = O.construct(PRIMER)
+    pr, perr, _ = O.quiet(sp.synthesize_trials, pb, 1, sp.SMGen)
+    primer = {"r": pr, "err": perr}
     for rep in range(2):
         b, pool, e = O.construct(spec)
         if e:
@@ -60,7 +77,7 @@ def child(spec, short_timer):
         outs.append({"r": r, "err": err})
     import time
     time.sleep(0.05)
-    return {"outs": outs, "fired": fired[0]}
+    return {"outs": outs, "fired": fired[0], "primer": primer}
 
 
 def run_case(case):
@@ -80,6 +97,15 @@ def run_case(case):
     viol = []
     nontrivial = False
     user = S.tree_design(spec["block"])
+    pr = val.get("primer") or {}
+    if pr.get("r"):
+        pfl = ref.analyze(PRIMER)
+        counters["primer_sequences_judged"] = len(pr["r"])
+        for s_ in pr["r"]:
+            rr = ref.valid(PRIMER, pfl, s_)
+            if rr:
+                viol.append(D.invalid_violation("SMGen", s_, rr, decided=True, call_index=-1))
+                break
     for ci, o in enumerate(val["outs"]):
         err, r = o["err"], o["r"]
         if err:
